@@ -88,6 +88,14 @@ def check(ctx: Ctx) -> list[RuleResult]:
                             why = f"min({', '.join(args)}) with SEND_TIMEOUT_LIMIT={lim_val!r}"
                     elif d is not None:
                         why = f"timeout is {norm(d)[:50]}, not min(qos.timeout, SEND_TIMEOUT_LIMIT)"
+                        # however the cap is spelled (a conditional expression, hoisted locals): fold it for sample timeouts
+                        from .common import Unfoldable, fold_expr
+
+                        try:
+                            if isinstance(lim_val, (int, float)) and 0 < lim_val <= 20.0 and all(fold_expr(f.node, t, {"qos.timeout": q, "self.SEND_TIMEOUT_LIMIT": lim_val}, ctx.consts, f) == min(q, lim_val) for q in (0.05, 1.0, lim_val - 0.1, lim_val, lim_val + 0.1, 3600.0)):
+                                ok = True
+                        except (Unfoldable, TypeError, ZeroDivisionError):
+                            pass
                 if ok:
                     r1.ok({"await": f"{f.short}: {norm(v)[:60]}", "timeout": norm(d), "SEND_TIMEOUT_LIMIT": lim_val})
                 else:
